@@ -15,7 +15,7 @@ from concurrent.futures import ThreadPoolExecutor
 from fractions import Fraction as F
 
 import common
-from common import (CASES_HEADER, VERIF, Check, clist, coq_eval, coq_eval_parallel, cq, cz)
+from common import (CASES_HEADER, VERIF, Check, clist, coq_eval_parallel, cq, cz, parse_coq_list)
 
 IMPORTS = CASES_HEADER + "From PV Require Import Base.CasesLib Comb.FockModel C05.PassiveModel C05.PassiveCases.\n"
 
@@ -24,15 +24,11 @@ KEY_D2 = "C05:ryser-coefficient-extraction:conjugated-outer-product"
 
 
 def run_impl(script, request, timeout=3000):
-    """common.run_impl with a numba cache directory of our own (the shared one is pruned by
-    concurrently running checks of other worktrees) and one retry."""
-    cache = os.path.join(common.RUN, "numba_c05", common.repo_tree_hash())
-    os.makedirs(cache, exist_ok=True)
+    """common.run_impl (shared numba cache, pinned thread pools) with one retry."""
     try:
-        return common.run_impl(script, request, timeout=timeout, extra_env={"NUMBA_CACHE_DIR": cache})
+        return common.run_impl(script, request, timeout=timeout)
     except RuntimeError:
-        os.makedirs(cache, exist_ok=True)
-        return common.run_impl(script, request, timeout=timeout, extra_env={"NUMBA_CACHE_DIR": cache})
+        return common.run_impl(script, request, timeout=timeout)
 
 
 # ----------------------------------------------------------------------------- exact arithmetic
@@ -483,22 +479,24 @@ def run(chk: Check):
                 picked.append(c)
         combos = picked
     else:
-        # quick: a stratified sample -- every (loss, overlap kind) pair at a small and a
-        # medium size, three heavy cases (4 photons on 4 modes)
-        picked, seen, heavy = [], {}, 0
+        # quick: a stratified sample -- every (loss kind, overlap kind) pair once, sizes
+        # alternating small / medium, one trivial and one heavy case (4 photons, >= 3 modes);
+        # the volume (every input x loss, all overlaps) is in the thorough tier
+        picked, seen = [], {}
         for c in combos:
             n, d = sum(c[1]), c[0]
             if n == 0 or d == 1:
                 k = "trivial"
-                cap = 2
             elif n == 4 and d >= 3:
                 k = "heavy"
-                cap = 3
             else:
-                k = (c[2], str(c[3]), "small" if n * d <= 4 else "medium")
-                cap = 1
-            if seen.get(k, 0) < cap:
-                seen[k] = seen.get(k, 0) + 1
+                k = (c[2], str(c[3]))
+                want_small = (len(seen) % 2 == 0)
+                if k not in seen and (n * d <= 4) != want_small and seen.get(("skipped", k), 0) < 8:
+                    seen[("skipped", k)] = seen.get(("skipped", k), 0) + 1
+                    continue
+            if k not in seen:
+                seen[k] = 1
                 picked.append(c)
         combos = picked
     for (d, s, loss, ov) in combos:
@@ -511,7 +509,7 @@ def run(chk: Check):
         for (modes, counts) in ps_patterns(d, sum(s)):
             pats.append((d, s, modes, counts))
     if not Tq:
-        pats = rng.sample(pats, 10)
+        pats = rng.sample(pats, 6)
     for (d, s, modes, counts) in pats:
         # one step with all modes, or split into two successive steps (active renumbering)
         if len(modes) >= 2 and rng.random() < 0.5:
@@ -528,7 +526,7 @@ def run(chk: Check):
     # dilation requests are derived from the generated cases (no implementation output needed)
     dil_reqs, dil_meta = [], []
     for m in metas:
-        if n_corpus <= m["id"] < n_corpus + n_feature and 1 <= sum(m["s"]) and (Tq or len(dil_reqs) < 8):
+        if n_corpus <= m["id"] < n_corpus + n_feature and 1 <= sum(m["s"]) and (Tq or len(dil_reqs) < 5):
             if m["loss"] != "none" and 2 * m["d"] > (8 if Tq else 6):
                 continue
             dil_reqs.append({"id": len(dil_reqs), "U": jm(dilation_unitary(m)), "s": m["s"]})
@@ -576,15 +574,64 @@ def run(chk: Check):
             else:
                 chk.violation("C05:%s:%s" % (name.split("[")[0], e.split(":")[0]), "%s raised %s" % (name, e), dict(describe(m), interface=name))
 
+    # ---- Coq inputs of the dilation and bookkeeping comparisons (evaluated in one batch below)
+    items = []
+    kept = []
+    for m, g in zip(dil_meta, dil):
+        if "ok" not in g:
+            chk.violation("C05:dilation-on-PureFockSimulator:%s" % str(g.get("error", g))[:40], "the dilation could not be simulated on PureFockSimulator", describe(m))
+            continue
+        d = m["d"]
+        probs = {}
+        for k, p in g["ok"]["probs"]:
+            probs[tuple(k[:d])] = probs.get(tuple(k[:d]), 0.0) + p
+        ts = sorted(probs)
+        items.append("(%s, %d, %d%%nat, %s, %s)" % (
+            zi_matrix(m["N"], m["D"]), m["D"], m["nloss"], clist(m["s"]),
+            clist(ts, lambda t: "(%s,%s)" % (clist(t), fq(probs[t])))))
+        kept.append((m, probs))
+    dil_bodies = []
+    ch = 8
+    for i in range(0, len(items), ch):
+        dil_bodies.append(IMPORTS + """
+Definition dcases : list (list (list Zi) * Z * nat * list Z * list (list Z * Q)) := [
+%s].
+Eval vm_compute in mismatches (fun '(N, D, nl, s, obs) =>
+   forallb (fun tp : list Z * Q => close (pind N D nl s (fst tp)) (snd tp)) obs) dcases.
+""" % ";\n".join(items[i:i + ch]))
+    book_body = IMPORTS + """
+Definition mcases := %s.
+Definition pcases := %s.
+Definition scases := %s.
+Definition bcases := %s.
+Definition ncases := %s.
+Eval vm_compute in mismatches (fun '(ms, ps, r) => list_eqb Nat.eqb (map_to_original ms ps) r
+   && list_eqb Nat.eqb r (map (fun m => nth m (active_modes (List.length ms + List.length ps) ps) 0%%nat) ms)) mcases.
+Eval vm_compute in mismatches (fun '(d, c, pm, pp, st, r) =>
+   match postselected_fock_basis d c pm pp with Some b => Z.eqb st 0 && zll_eqb b r | None => negb (Z.eqb st 0) end) pcases.
+Eval vm_compute in mismatches (fun '(M, r) => zll_eqb (subset_row_sums Z 0 Z.add M) r) scases.
+Eval vm_compute in mismatches (fun '(k, c, p, b) => match k with Zpos q => Nat.eqb (ctz q) c && N.eqb (clear_lsb q) p | _ => false end) bcases.
+Eval vm_compute in mismatches (fun '(s, x, r) => close (input_norm Q 0%%Q 1%%Q qadd qmul qsub x s) r) ncases.
+""" % (
+        clist(list(zip(book["map_to_original"], bimpl["map_to_original"])), lambda t: "(%s,%s,%s)" % (nl(t[0][0]), nl(t[0][1]), nl(t[1]))),
+        clist(list(zip(book["ps_basis"], bimpl["ps_basis"])), lambda t: "(%d%%nat,%s,%s,%s,%s,%s)" % (
+            t[0][0], cz(t[0][1]), nl(t[0][2]), clist(t[0][3]), cz(st_of(t[1])), zll(t[1].get("ok", [])))),
+        clist(list(zip(book["subset_sums"], bimpl["subset_sums"])), lambda t: "(%s,%s)" % (zll(t[0]), zll(t[1]))),
+        clist(list(zip(book["bit_tricks"], bimpl["bit_tricks"])), lambda t: "(%s,%d%%nat,%d%%N,%s)" % (cz(t[0]), t[1][0], t[1][1], cz(t[1][2]))),
+        clist(list(zip(book["input_norms"], bimpl["input_norms"])), lambda t: "(%s,%s,%s)" % (clist(t[0][0]), cq(F(t[0][1])), fq(t[1][0]))),
+    )
     # ---- correspondence inside Coq
-    chunk = 6 if Tq else 4
+    chunk = 6 if Tq else 2
     bodies, groups = [], []
     for i in range(0, len(usable), chunk):
         part = usable[i:i + chunk]
         groups.append(part)
         bodies.append(IMPORTS + "Definition cases : list case := [\n%s\n].\nEval vm_compute in run_cases cases.\n"
                       % ";\n".join(enc_case(m, r) for m, r in part))
-    outs = coq_eval_parallel("c05_cases", bodies, timeout=3000, jobs=4)
+    all_outs = coq_eval_parallel("c05_eval", bodies + dil_bodies + [book_body], timeout=3000, jobs=4)
+    outs = all_outs[:len(bodies)]
+    dil_outs = all_outs[len(bodies):len(bodies) + len(dil_bodies)]
+    book_out = all_outs[-1]
     dbg('coq cases done')
     d2_hits = 0
     nontrivial = set()
@@ -619,32 +666,7 @@ def run(chk: Check):
                samples=[{"d": p[0], "input": p[1], "modes": p[2], "counts": p[3]} for p in pats[:2]])
 
     # ---- three-way: the lossless dilation on PureFockSimulator vs the exact reference
-    items = []
-    kept = []
-    for m, g in zip(dil_meta, dil):
-        if "ok" not in g:
-            chk.violation("C05:dilation-on-PureFockSimulator:%s" % str(g.get("error", g))[:40], "the dilation could not be simulated on PureFockSimulator", describe(m))
-            continue
-        d = m["d"]
-        probs = {}
-        for k, p in g["ok"]["probs"]:
-            probs[tuple(k[:d])] = probs.get(tuple(k[:d]), 0.0) + p
-        ts = sorted(probs)
-        items.append("(%s, %d, %d%%nat, %s, %s)" % (
-            zi_matrix(m["N"], m["D"]), m["D"], m["nloss"], clist(m["s"]),
-            clist(ts, lambda t: "(%s,%s)" % (clist(t), fq(probs[t])))))
-        kept.append((m, probs))
-    bodies = []
-    ch = 8
-    for i in range(0, len(items), ch):
-        bodies.append(IMPORTS + """
-Definition dcases : list (list (list Zi) * Z * nat * list Z * list (list Z * Q)) := [
-%s].
-Eval vm_compute in mismatches (fun '(N, D, nl, s, obs) =>
-   forallb (fun tp : list Z * Q => close (pind N D nl s (fst tp)) (snd tp)) obs) dcases.
-""" % ";\n".join(items[i:i + ch]))
-    outs = coq_eval_parallel("c05_dil", bodies, timeout=3000, jobs=4)
-    from common import parse_coq_list
+    outs = dil_outs
     for j, o in enumerate(outs):
         for k in parse_coq_list(o)[0]:
             m = kept[j * ch + k][0]
@@ -655,28 +677,7 @@ Eval vm_compute in mismatches (fun '(N, D, nl, s, obs) =>
                samples=[{"d": kept[0][0]["d"], "input": kept[0][0]["s"], "loss": kept[0][0]["loss"]}] if kept else [])
 
     # ---- bookkeeping helpers and Ryser precomputation, exact
-    body = IMPORTS + """
-Definition mcases := %s.
-Definition pcases := %s.
-Definition scases := %s.
-Definition bcases := %s.
-Definition ncases := %s.
-Eval vm_compute in mismatches (fun '(ms, ps, r) => list_eqb Nat.eqb (map_to_original ms ps) r
-   && list_eqb Nat.eqb r (map (fun m => nth m (active_modes (List.length ms + List.length ps) ps) 0%%nat) ms)) mcases.
-Eval vm_compute in mismatches (fun '(d, c, pm, pp, st, r) =>
-   match postselected_fock_basis d c pm pp with Some b => Z.eqb st 0 && zll_eqb b r | None => negb (Z.eqb st 0) end) pcases.
-Eval vm_compute in mismatches (fun '(M, r) => zll_eqb (subset_row_sums Z 0 Z.add M) r) scases.
-Eval vm_compute in mismatches (fun '(k, c, p, b) => match k with Zpos q => Nat.eqb (ctz q) c && N.eqb (clear_lsb q) p | _ => false end) bcases.
-Eval vm_compute in mismatches (fun '(s, x, r) => close (input_norm Q 0%%Q 1%%Q qadd qmul qsub x s) r) ncases.
-""" % (
-        clist(list(zip(book["map_to_original"], bimpl["map_to_original"])), lambda t: "(%s,%s,%s)" % (nl(t[0][0]), nl(t[0][1]), nl(t[1]))),
-        clist(list(zip(book["ps_basis"], bimpl["ps_basis"])), lambda t: "(%d%%nat,%s,%s,%s,%s,%s)" % (
-            t[0][0], cz(t[0][1]), nl(t[0][2]), clist(t[0][3]), cz(st_of(t[1])), zll(t[1].get("ok", [])))),
-        clist(list(zip(book["subset_sums"], bimpl["subset_sums"])), lambda t: "(%s,%s)" % (zll(t[0]), zll(t[1]))),
-        clist(list(zip(book["bit_tricks"], bimpl["bit_tricks"])), lambda t: "(%s,%d%%nat,%d%%N,%s)" % (cz(t[0]), t[1][0], t[1][1], cz(t[1][2]))),
-        clist(list(zip(book["input_norms"], bimpl["input_norms"])), lambda t: "(%s,%s,%s)" % (clist(t[0][0]), cq(F(t[0][1])), fq(t[1][0]))),
-    )
-    gs = parse_coq_list(coq_eval("c05_book", body))
+    gs = parse_coq_list(book_out)
     names = ["map_to_original_modes", "get_postselected_fock_basis", "_precompute_subset_row_sums", "subset & -subset / bit_length / xor", "_uniform_input_norm"]
     srcs = [book["map_to_original"], book["ps_basis"], book["subset_sums"], book["bit_tricks"], book["input_norms"]]
     for nm, g, src in zip(names, gs, srcs):
